@@ -86,7 +86,39 @@ func cmdDev(args []string) int {
 	cfg := &solveCfg{timeout: *timeout, seed: 0, scratch: scratchDir(), parallel: 14}
 	defer os.RemoveAll(cfg.scratch)
 	rc := 0
-	for _, spec := range fs.Args() {
+	specs := fs.Args()
+	if len(specs) == 1 && specs[0] == "all" {
+		specs = nil
+		cf := V.files[pkgPath]
+		for _, name := range cf.Order {
+			fn := V.lookupFunc(pkgPath, name)
+			if fn == nil {
+				fmt.Println("contract for missing function", name)
+				rc = 1
+				continue
+			}
+			sp := name
+			if fn.TypeParams() != nil && fn.TypeParams().Len() > 0 {
+				var ts []string
+				for i := 0; i < fn.TypeParams().Len(); i++ {
+					tp := fn.TypeParams().At(i)
+					if isCodecInterface(tp.Constraint()) {
+						break
+					}
+					if i == 0 && fn.TypeParams().Len() == 2 || strings.Contains(name, "String") || name == "checkPrefix" {
+						ts = append(ts, "uint16")
+					} else {
+						ts = append(ts, "int32")
+					}
+				}
+				if len(ts) > 0 {
+					sp += "[" + strings.Join(ts, ",") + "]"
+				}
+			}
+			specs = append(specs, sp)
+		}
+	}
+	for _, spec := range specs {
 		// Name or Name[uint16,int16]
 		name, targs := spec, []types.Type(nil)
 		if i := strings.IndexByte(spec, '['); i >= 0 {
@@ -94,6 +126,23 @@ func cmdDev(args []string) int {
 			for _, t := range strings.Split(strings.Trim(spec[i:], "[]"), ",") {
 				targs = append(targs, basicByName[strings.TrimSpace(t)])
 			}
+		}
+		if strings.HasPrefix(spec, "lemma:") {
+			l := V.findLemma(strings.TrimPrefix(spec, "lemma:"))
+			if l == nil {
+				fmt.Fprintln(os.Stderr, "no such lemma")
+				return 2
+			}
+			obs := V.VerifyLemma(l)
+			dischargeAll(obs, cfg)
+			for _, o := range obs {
+				fmt.Printf("  %-8s %-10s %5.2fs %s\n", o.Status, o.Backend, o.Seconds, o.Name)
+				if *dump != "" && strings.Contains(o.Name, *dump) {
+					f := filepath.Join("/tmp", sanitize(o.Name)+".smt2")
+					os.WriteFile(f, []byte(o.SMTBody()), 0o644)
+				}
+			}
+			continue
 		}
 		tg, err := V.target(pkgPath, name, targs)
 		if err != nil {
